@@ -114,7 +114,7 @@ def run_shards(binary, spec, pid, tier, seed, scratch, replay=None, part_index=0
         e.update({"VERIF_OUT": outdir, "VERIF_SHARD": str(sh + 100 * part_index), "VERIF_SHARD_INDEX": str(sh), "VERIF_SHARDS": str(shards), "VERIF_TIER": tier,
                   "VERIF_SEED": str(seed), "VERIF_KF": os.path.join(VERIF, "known_findings.json"),
                   "VERIF_REPO": repo(), "VERIF_DIR": VERIF, "VERIF_SCRATCH_DIR": scratch, "VERIF_TOOLS_DIR": os.path.join(scratch, "tools"),
-                  "GOMAXPROCS": str(t.get("gomaxprocs", 2)), "GOGC": str(t.get("gogc", 400)), "VERIF_N": str(t.get("n", 0))})
+                  "GOMAXPROCS": str(t.get("gomaxprocs", 2)), "GOGC": str(t.get("gogc", 400)), "GOMEMLIMIT": t.get("gomemlimit", "1500MiB"), "VERIF_N": str(t.get("n", 0))})
         e.update({k: str(v) for k, v in t.get("env", {}).items()})
         if replay:
             e["VERIF_REPLAY"] = os.path.abspath(replay)
